@@ -4,6 +4,7 @@ from ._engine import engine_check
 
 def run(ctx):
     return engine_check(ctx, "PropC02", [("conflicts", 3500, 100000), ("edit_vs_delete", 1500, 40000), ("conflicts_faulty", 1500, 40000, "run_conflicts_faulty"),
+                         ("type_change_vs_edit", 1000, 20000, "run_only_guards"),
                          ("disjoint", 1000, 20000)],
                         "run rejected by the monitor (C02: a version written by a user and not destroyed by a user is in no live file)",
                         stream_b="C02")
